@@ -126,8 +126,14 @@ func c11Run(r *rt.Rec, rng *rand.Rand, n int) {
 			b := bs[pi]
 			if k < ng {
 				p := bq.Proj{Binding: b}
-				if rng.Intn(3) == 0 {
+				switch rng.Intn(5) {
+				case 0:
 					p.Alias = "?k" + strconv.Itoa(k)
+				case 1:
+					// an alias named like a pattern binding that is only aggregated
+					if k == 0 && ng < len(perm) {
+						p.Alias = bs[perm[ng]]
+					}
 				}
 				q.Vars = append(q.Vars, p)
 				groupIn = append(groupIn, b)
